@@ -265,3 +265,18 @@ pub fn ill_typed(p: &SumProg, g: &mut Gen) -> Option<(SumProg, &'static str)> {
         }
     }
 }
+
+/// `p` with all but one arm removed from a match without wildcard over a type with >= 3
+/// constructors (two or more missing patterns); unchanged when there is no such function.
+pub fn drop_arms(p: &SumProg, g: &mut Gen) -> SumProg {
+    let mut q = p.clone();
+    let cands: Vec<usize> = q.fns.iter().enumerate().filter(|(_, f)| f.arms.iter().all(|a| a.ctor.is_some()) && f.arms.len() >= 3).map(|(i, _)| i).collect();
+    if cands.is_empty() {
+        return q;
+    }
+    let fi = *g.pick(&cands);
+    let keep = g.usize_below(q.fns[fi].arms.len());
+    let a = q.fns[fi].arms[keep].clone();
+    q.fns[fi].arms = vec![a];
+    q
+}
